@@ -363,7 +363,6 @@ TypeOK == /\ mem.pc \in {"idle", "fin", "kv_trunc", "kv_h", "kv_undo", "kv_bat",
           /\ bs.desc \in 0..MaxH /\ st.h \in 0..MaxH /\ H \in 1..(MaxH + 1)
 
 (* ---- export for the harness -------------------------------------------------------------- *)
-SetSeq(S) == S          \* sets of small integers are printed as JSON arrays
 Proj == [par |-> par, kv |-> kv, bs |-> bs, ux |-> ux, wal |-> wal, st |-> st, pr |-> pr, mem |-> mem, hist |-> hist]
 ProjN == [par |-> par', kv |-> kv', bs |-> bs', ux |-> ux', wal |-> wal', st |-> st', pr |-> pr', mem |-> mem', hist |-> hist']
 Edge == PrintT(ToJson([from |-> Proj, act |-> last', to |-> ProjN]))
